@@ -188,4 +188,32 @@ PROPS = {
                 "of write #1..#8; close request id 0 / 7 with agreed versions {none, 1.8.2, 1.8.3, 1.9.1}; close(); close() from the application "
                 "thread; handler absent / True / False / None; pool 1-3 with pool tasks in flight; random schedules; non-trivial = distinct scenario",
     },
+    "C04": {
+        "lean": ["AriVerif.Props.C04"],
+        "gen": [],
+        "streams": [s_conc.meta_stream(["C04"], "meta-cosim"), s_wire.stream_meta, s_conc.meta_fine_stream(["C04"])],
+        "trusted": [KERNEL, HARNESS, "the scheduler shim (harness/shim.py): Lock/RLock, Queue, Event, Thread, ThreadPoolExecutor (FIFO work queue, <= n running), scripted socket, virtual clock; line-level preemption via sys.settrace in the fine-grained streams",
+                    "Meta.metaExec (which adapter methods, arguments, order, reply) is hand-written and tied by the closures differential "
+                    "(real _on_* closures with scripted adapters) and by the adapter-call effects compared in every co-simulation chunk"],
+        "assumptions": ["'a return value of the wrong type' = a value of an unsupported type in a type-guarded slot, or (since the repair of F4) "
+                        "a non-iterable where a list is expected; a str/bytes where a list is expected is iterated (duck typing, DESIGN I-5)",
+                        "requests are well-formed (malformed ones are C09)"],
+        "rule": "Metadata scenarios: 1-12 requests over the 14 post-init methods with structured random arguments, per adapter call outcome in "
+                "{valid return, wrong-typed return, each library exception class, other exceptions}, thread_pool_size in {1, 2, 3, None, 0, -2} "
+                "(cpu_count patched to 8), exception handler absent / True / False, all lines in one chunk / one per chunk / merged, adapter calls "
+                "that return only after the reply to a later request was written; random schedules; lock-step comparison of effects, enabled "
+                "library threads and state after every chunk; non-trivial = scenario with more than one request or concurrent adapter calls",
+    },
+    "C18": {
+        "lean": ["AriVerif.Props.C18"],
+        "gen": ["Pool"],
+        "streams": [s_conc.meta_stream(["C18"], "meta-cosim"), s_conc.data_stream(["C02"], "data-cosim-threads"), s_init.stream_pool],
+        "trusted": [KERNEL, HARNESS, "the scheduler shim (harness/shim.py): Lock/RLock, Queue, Event, Thread, ThreadPoolExecutor (FIFO work queue, <= n running), scripted socket, virtual clock; line-level preemption via sys.settrace in the fine-grained streams",
+                    "harness/extract.py for Gen/Pool.lean (pool sizing), mitigated by the constructor differential with cpu_count patched",
+                    "concurrent.futures.ThreadPoolExecutor behaves as the shim's pool; cpu_count() is a parameter"],
+        "assumptions": ["'does not block' is stated on the pool model (submission always enabled; a free worker always takes the oldest waiting "
+                        "request) and checked on the real server by the enabled-set comparison of every chunk"],
+        "rule": "as C04, plus Data scenarios (adapter calls only on pool-task threads: compared as effects per thread in lock-step) and the "
+                "constructor grid thread_pool_size in {None, -7..1000} x cpu_count in {1, 2, 8, 64, NotImplementedError} on both kinds",
+    },
 }
